@@ -269,6 +269,22 @@ def run(ctx):
         if ctx.time_left() < 10:
             break
         net = netkit.gen_network(rng)
+        if i == 0 and ctx.shard < 4:
+            # one network per shard that is sure to put several sensors on one target and to produce misses (the situations the
+            # bookkeeping has to get right do not depend on the luck of the draw)
+            for _ in range(30):
+                if len(net["sensors"]) >= 3 and len(net["targets"]) >= 2:
+                    break
+                net = netkit.gen_network(rng)
+            net["policy"] = ["MyopicNaiveGreedyDecision", "AllVisibleDecision", "RandomDecision", "MyopicNaiveGreedyDecision"][ctx.shard]
+            for sdesc in net["sensors"]:
+                sdesc["fov"] = "narrow"
+                sdesc["slew"] = 180.0
+                if net["policy"] == "AllVisibleDecision":
+                    sdesc["kind"] = "adv_radar"
+            net["init_pos_std"] = [10.0, 10.0, 30.0, 5.0][ctx.shard]
+            net["nsteps"] = max(net["nsteps"], 3)
+            ctx.count("forced_multi_sensor_miss_nets")
         net["save_every"] = rng.choice([1, 1, 2, 3])
         netkit.maybe_sub_second_start(net, rng)
         if len(net["sensors"]) >= 2 and len(net["targets"]) >= 2 and rng.random() < 0.3:
